@@ -152,10 +152,16 @@ def _t3(s0, s1, w):
         if c == 4: return Anon((("x", Slc(Sig("wide"), 1, w + 1)), ("y", BRef("bb", ("y",)))))
         if c == 5: return Anon((("x", BRef("pb", ("x",))), ("y", Idx(Sig("wide"), 0))))
         return PRef("i0", "b") if not first else Bun("bb")
+    # a leaf with a NESTED bundle port, fed by an anonymous bundle one of whose members is a whole bundle instance
+    # (stored under the member's key `b`, not under the instance's own name)
+    nleaf = Mod("NLeaf", ports=[], buns=[("n", N, True)], insts=[
+        Inst("u", Ext("Cell", [("a", w), ("b", 1)]), {"a": BRef("n", ("b", "x")), "b": BRef("n", ("z",))}),
+        Inst("r1", R(), {"p": BRef("n", ("b", "y")), "n": BRef("n", ("z",))})])
     return Mod("Top", ports=[("t", 1), ("sx", w), ("wide", w + 1)],
                buns=[("bb", B, False), ("pb", B, True), ("nn", N, False)],
                insts=[Inst("i0", bleaf, {"b": bopt(s0, True), "g": Sig("t")}),
                       Inst("i1", bleaf, {"b": bopt(s1, False), "g": BRef("nn", ("z",))}),
+                      Inst("i2", nleaf, {"n": Anon((("z", Sig("t")), ("b", Bun("pb" if s1 % 2 else "bb"))))}),
                       # observability probes for the internal bundles
                       Inst("p0", R(), {"p": Idx(BRef("bb", ("x",)), 0), "n": Sig("t")}),
                       Inst("p1", R(), {"p": Idx(BRef("nn", ("b", "x")), -1), "n": BRef("nn", ("b", "y"))})])
